@@ -396,6 +396,9 @@ func (g *gen) switchStmt() string {
 			cases = append(cases, "case "+g.IntExpr(1)+" + "+fmt.Sprint(1000*(i+1))+", "+g.IntExpr(1)+" - "+fmt.Sprint(1000*(i+1))+":")
 		}
 	}
+	if defPos > len(cases) {
+		defPos = len(cases) // fewer cases than drawn (constants exhausted): default goes last
+	}
 	body, label := g.withLoop(false, func() string {
 		var b strings.Builder
 		total := len(cases)
